@@ -23,7 +23,7 @@ RULE = ('every (batch, configuration vector) within the deviation bound; one cas
 ASSUMPTIONS = ['4 query genomes, 6 reference genomes; batches of <= 3; reference chunk size varied through the library only (the CLI does not expose it)']
 
 LABELS = ['g1', 'g2', 'g3', 'g4']
-XLABELS = ['empty1', 'empty2', 'E.faecalis_V583', 'P.fa.lciparum.fasta_x', '#7_isolate']
+XLABELS = ['empty1', 'empty2', 'E.faecalis_V583', 'P.fa.lciparum.fasta_x', '#7_isolate', 'E. coli K-12, substr. "MG1655"']
 DIMS = dict(
 	channel=['positional', 'list', 'list-no-final-newline', 'list-crlf', 'list-blank-lines', 'sigfile'],
 	comp=['stored', 'opposite', 'multi-member-gzip', 'mixed', 'symlink'],      # mixed: alternately from the plain and the gzip directory (same label, different files)
@@ -42,7 +42,8 @@ def batches():
 	out += [['g1', 'g1'], ['g2', 'g4', 'g2'], ['g3', 'g3', 'g3']]
 	# genomes without any k-mer (empty signature) next to ordinary ones, in every position; tricky file names
 	out += [['empty1'], ['empty1', 'g1'], ['g1', 'empty1'], ['g2', 'empty1', 'g3'], ['empty1', 'empty2'], ['empty2', 'g4', 'empty1'],
-	        ['E.faecalis_V583'], ['P.fa.lciparum.fasta_x', 'g1'], ['g2', 'E.faecalis_V583', 'empty2'], ['#7_isolate'], ['g1', '#7_isolate'], ['#7_isolate', 'g3']]
+	        ['E.faecalis_V583'], ['P.fa.lciparum.fasta_x', 'g1'], ['g2', 'E.faecalis_V583', 'empty2'], ['#7_isolate'], ['g1', '#7_isolate'], ['#7_isolate', 'g3'],
+	        ['E. coli K-12, substr. "MG1655"'], ['g2', 'E. coli K-12, substr. "MG1655"']]
 	return out
 
 
